@@ -382,22 +382,27 @@ static std::vector<Case> build_cases(mon::Rng& rng)
     cs.push_back(c);
   }
   // --- copy_and_verify_string on a char* that itself lives in sandbox memory (tainted_volatile<char*>): the sandbox can
-  //     retarget or null the pointer between the measurement of the string and its copy
+  //     retarget or null the pointer between the measurement of the string and its copy.  The two strings differ in LENGTH,
+  //     so a string measured through one value of the cell and copied through another is neither of them; what the verifier
+  //     gets is recorded as (length, characters) - for the std::string flavour the length is size(), which an embedded NUL
+  //     does not shorten
   for (int flavour = 0; flavour < 2; flavour++) {
     Case c;
     c.name = mon::fmt("copy_and_verify_string/volatile-pointer/%s", flavour ? "std-string" : "unique_ptr");
     c.off = 4520; c.len = 4; c.A = bytes_of(uint32_t(0x2800)); c.acts = { A_RETARGET, A_ZERO };
-    // the cell designates one of two strings of equal length (RETARGET writes 0x2000); a null cell designates nothing
-    c.elems = [](const Bytes& s) {
+    // record: [length][characters, zero padded to 15]; a null cell designates nothing (length 0)
+    auto record = [](const char* str, size_t len) { Bytes r(16, 0); r[0] = static_cast<unsigned char>(len); for (size_t i = 0; i < len && i < 15; i++) r[1 + i] = static_cast<unsigned char>(str[i]); return r; };
+    c.elems = [record](const Bytes& s) {
       uint32_t t; memcpy(&t, s.data(), 4);
-      const char* str = t == 0x2800 ? "string-one!!" : (t == 0x2000 ? "string-two!!" : "\0\0\0\0\0\0\0\0\0\0\0\0");
-      return std::vector<Bytes>{ Bytes(reinterpret_cast<const unsigned char*>(str), reinterpret_cast<const unsigned char*>(str) + 13) };
+      if (t == 0x2800) return std::vector<Bytes>{ record("string-one!!", 12) };
+      if (t == 0x2000) return std::vector<Bytes>{ record("two", 3) };
+      return std::vector<Bytes>{ record("", 0) };
     };
-    c.call = [flavour](Obs& o) {
-      { trap::Pause p; memcpy(reinterpret_cast<void*>(BASE + 0x2800), "string-one!!", 13); memcpy(reinterpret_cast<void*>(BASE + 0x2000), "string-two!!", 13); }
+    c.call = [flavour, record](Obs& o) {
+      { trap::Pause p; memcpy(reinterpret_cast<void*>(BASE + 0x2800), "string-one!!", 13); memcpy(reinterpret_cast<void*>(BASE + 0x2000), "two\0ZYXWVUTSRQPONML", 20); }
       tainted_volatile<char*, S>& cell = *Wd::tptr<char*>(*SB, 4520);
-      if (flavour == 0) cell.copy_and_verify_string([&](std::unique_ptr<char[]> v) { if (v) observe(o, v.get(), 13); return 0; });
-      else cell.copy_and_verify_string([&](std::string v) { if (!v.empty()) observe(o, v.c_str(), 13); return 0; });
+      if (flavour == 0) cell.copy_and_verify_string([&](std::unique_ptr<char[]> v) { Bytes r = v ? record(v.get(), strlen(v.get())) : record("", 0); observe(o, r.data(), 16); if (v) o.obj = reinterpret_cast<uintptr_t>(v.get()); return 0; });
+      else cell.copy_and_verify_string([&](std::string v) { Bytes r = record(v.data(), v.size()); observe(o, r.data(), 16); o.obj = reinterpret_cast<uintptr_t>(v.data()); return 0; });
     };
     cs.push_back(c);
   }
